@@ -792,33 +792,27 @@ def classify_optimum(info, tres, bres, to_t, to_b, shift, ctol):
     return None
 
 
-def asym_inner_minimisation_stopped_short(tb, names_t, ae, bad_rows, info):
-    """explain-check for the open finding KEY_SCIPY_MIN in the asymmetric-error search: transformation = scaling AND backend = scipy AND
-    for a failing parameter the fit's own cost function, re-minimised over the other free parameters by an independent derivative-free
-    search (Nelder-Mead with a simplex of the size of the reported uncertainties) with that parameter pinned at optimum + reported upper
-    error, has risen by clearly less than 1: the search cut the profile where scipy's re-minimisation of the other parameters had stopped
-    short (profile too high), not where the true profile reaches 1."""
-    if info["kind"] != "scaling" or info["minimizer"] != "scipy" or not bad_rows:
-        return None
+def true_profile_rise(fit, i, delta):
+    """rise of the fit's own cost function above its optimum with parameter i pinned at optimum + delta, re-minimised over the other
+    free parameters by an independent derivative-free search (Nelder-Mead, simplex of the size of the reported uncertainties)"""
+    from scipy import optimize
+
+    fcn = fit._fitter._fcn_wrapper
+    names = list(fit.parameter_names)
+    p0 = np.array(fit.parameter_values, dtype=float)
+    err = np.array(fit.parameter_errors, dtype=float)
+    fixed = set(fit._fitter.fixed_parameters)
+    others = [k for k, n in enumerate(names) if k != i and n not in fixed and np.isfinite(err[k]) and err[k] > 0]
+    c0 = float(fcn(*p0))
+
+    def g(u):
+        p = p0.copy()
+        p[i] = p0[i] + delta
+        p[others] = u
+        v = float(fcn(*p))
+        return v if np.isfinite(v) else 1e300
+
     try:
-        from scipy import optimize
-
-        fit = tb.fit
-        fcn = fit._fitter._fcn_wrapper
-        p0 = np.array(fit.parameter_values, dtype=float)
-        err = np.array(fit.parameter_errors, dtype=float)
-        fixed = set(fit._fitter.fixed_parameters)
-        i = bad_rows[0]
-        others = [k for k, n in enumerate(names_t) if k != i and n not in fixed and np.isfinite(err[k]) and err[k] > 0]
-        c0 = float(fcn(*p0))
-
-        def g(u):
-            p = p0.copy()
-            p[i] = p0[i] + ae[i][1]
-            p[others] = u
-            v = float(fcn(*p))
-            return v if np.isfinite(v) else 1e300
-
         if others:
             x0 = p0[others]
             simplex = np.vstack([x0] + [x0 + np.eye(len(others))[k] * err[others][k] for k in range(len(others))])
@@ -826,12 +820,36 @@ def asym_inner_minimisation_stopped_short(tb, names_t, ae, bad_rows, info):
             best = float(res.fun)
         else:
             best = g(np.zeros(0))
+    finally:
         fcn(*p0)  # write the optimum back into the graph
-        if np.isfinite(best) and best - c0 < 0.9:
-            return KEY_SCIPY_MIN
+    return best - c0
+
+
+def asym_inner_minimisation_stopped_short(tb, names_t, ae, bad_rows, info, base=None, base_asym=None, bad_entries=None):
+    """explain-check for the open finding KEY_SCIPY_MIN in the asymmetric-error search: transformation = scaling AND backend = scipy AND
+    for every failing entry (parameter, side) the true profile of one of the two fits (its own cost function, re-minimised over the
+    other free parameters by an independent derivative-free search, with the parameter pinned at optimum + reported error) has risen
+    by clearly less than 1 (< 0.95): that fit's search cut the profile where scipy's re-minimisation of the other parameters had
+    stopped short (profile too high), not where the true profile reaches 1.  A scaling error in kafe2's own search would put the
+    reported error of the transformed fit beyond or short of the crossing by the same factor on every parameter and both sides."""
+    if info["kind"] != "scaling" or info["minimizer"] != "scipy" or not bad_rows:
+        return None
+    try:
+        entries = bad_entries or [(i, 1) for i in bad_rows[:1]]
+        for i, side in entries[:4]:
+            short = False
+            r_t = true_profile_rise(tb.fit, i, float(ae[i][side]))
+            if np.isfinite(r_t) and r_t < 0.95:
+                short = True
+            elif base is not None and base_asym is not None and names_t[i] in base.names:
+                ib = base.names.index(names_t[i])
+                r_b = true_profile_rise(base.fit, ib, float(np.asarray(base_asym, dtype=float)[ib][side]))
+                short = bool(np.isfinite(r_b) and r_b < 0.95)
+            if not short:
+                return None
+        return KEY_SCIPY_MIN
     except Exception:
         return None
-    return None
 
 
 def classify_asym(info):
@@ -1098,16 +1116,20 @@ def compare_triple(ctx, case, vi, base, bres, sig_b, guards):
             return
         ae = np.array(ae, dtype=float)
         exp_a = to_t(bres["asym"])
+        # what is invariant are the crossing points (reported optimum + asymmetric error) of the profile with min + 1; the reported
+        # optimum itself may differ by ptol sigma between the two fits (compared above), which moves both errors by that amount in
+        # opposite directions: that displacement is taken out here instead of being counted twice
+        disp = np.where(np.isfinite(tres["values"] - exp_v), tres["values"] - exp_v, 0.0)
         with np.errstate(invalid="ignore"):
-            da = np.abs(ae - exp_a) / e_safe[:, None]
+            da = np.abs(ae + disp[:, None] - exp_a) / e_safe[:, None]
         da = np.where(np.isnan(da), np.inf, da)
         atol = max(ptol, etol)
         bad_rows = [i for i in range(len(names_t)) if np.any(da[i] > atol)]
         oka = ctx.check(
             "asymmetric_parameter_errors",
             not bad_rows,
-            lambda: dict(tag, names=names_t, got=ae, expected=exp_a, deviation_in_sigma=da, tolerance_sigma=atol, sigma_transformed=e_safe),
-            key=lambda: classify_asym(dict(info, bad_rows=bad_rows)) or asym_inner_minimisation_stopped_short(tb, names_t, ae, bad_rows, info),
+            lambda: dict(tag, names=names_t, got=ae, expected=exp_a, optimum_displacement=disp, deviation_of_crossing_points_in_sigma=da, tolerance_sigma=atol, sigma_transformed=e_safe),
+            key=lambda: classify_asym(dict(info, bad_rows=bad_rows)) or asym_inner_minimisation_stopped_short(tb, names_t, ae, bad_rows, info, base=base, base_asym=bres["asym"], bad_entries=[(i, sd) for i in bad_rows for sd in (0, 1) if da[i][sd] > atol]),
         )
         if oka:
             worst("dasym_sigma", float(da.max()))
